@@ -5,7 +5,7 @@ CORE = "C01_AckedDurable C02_Unique C02_Monotone C02_NoGap C02_BaseIsStored C05_
 READ = "C03_FetchExact C04_Progress C06_Readable"
 DEFAULT = dict(FixRestore='TRUE', FixPublish='TRUE', FixMonotone='TRUE', FixReadOrder='TRUE', FixRange='TRUE', FixIndexSearch='TRUE', FixValidate='TRUE',
                DevNoWait='FALSE', DevCommitBeforeIndex='FALSE', DevRestoreKeepsOffset='FALSE', DevOrphanNotSkipped='FALSE',
-               DevOrphanAlwaysSkipped='FALSE', DevNoFlushOnAck='FALSE', DevTolerateLostIdx='FALSE', DevRestoreCountsOrphan='FALSE')
+               DevOrphanAlwaysSkipped='FALSE', DevNoFlushOnAck='FALSE', DevTolerateLostIdx='FALSE', DevRestoreCountsOrphan='FALSE', DevReadFloorSegment='FALSE')
 
 def gen(f, P='{"p1","p2"}', K=2, sh='ShOk1', faults=2, crashes=1, idxloss=0, sync='TRUE', inline=0, interval=1, mbs='{80}', invs=CORE, view=True, **over):
     c = dict(DEFAULT); c.update(over)
@@ -37,7 +37,11 @@ DEV = {
     'NoRange': (dict(FixRange='FALSE'), 'C04_Progress', dict(faults=0, crashes=0, interval=2, sh='ShOk12', mbs='{9,80}')),
     'NoIndexSearch': (dict(FixIndexSearch='FALSE'), 'C04_Progress', dict(P='{"p1","p2","p3","p4","p5"}', K=1, sh='ShOk2', faults=0, crashes=0, interval=1, mbs='{9}')),
     'TolerateLostIdx': (dict(DevTolerateLostIdx='TRUE'), 'C04_Progress', dict(P='{"p1","p2","p3"}', K=1, sh='ShOk1', faults=0, crashes=1, idxloss=1, interval=2, mbs='{9}')),
+    'ReadFloorSegment': (dict(DevReadFloorSegment='TRUE'), 'C04_Progress', dict(P='{"p1","p2","p3"}', K=1, sh='ShOk1', faults=0, crashes=1, idxloss=1, interval=2, mbs='{9}')),
     'RestoreCountsOrphan': (dict(DevRestoreCountsOrphan='TRUE'), 'C05_NotAhead', dict(faults=0, crashes=1)),
+    'RestoreCountsOrphanGap': (dict(DevRestoreCountsOrphan='TRUE'), 'C02_NoGap', dict(faults=0, crashes=1)),
+    'RestoreCountsOrphanHide': (dict(DevRestoreCountsOrphan='TRUE'), 'C06_NoHide', dict(faults=0, crashes=2)),
+    'NoValidateConcat': (dict(FixValidate='FALSE'), 'C02_Monotone', dict(faults=0, crashes=0, sh='ShConcat')),
     'NoValidateNeg': (dict(FixValidate='FALSE'), 'C02_Monotone', dict(faults=0, crashes=0, sh='ShAll')),
     'NoValidateDup': (dict(FixValidate='FALSE'), 'C02_Unique', dict(faults=0, crashes=0, sh='ShAll')),
     'NoWait': (dict(DevNoWait='TRUE'), 'C01_AckedDurable', {}),
